@@ -261,11 +261,39 @@ def check_own_colour(prog: Program, res: Result) -> None:
                     "the synthesised permutations keep fixed: the atom's own "
                     "colour is permuted away", instance=inst)
     inst = "stereo_morgan_generator: synthesised permutations fix position 0"
-    if re.search(r"perm_group = tuple\(\(\(0, \*perm\) for perm in perm_gen\)\)",
-                 txt) and re.search(
-            r"perm_gen = itertools\.permutations\(range\(1, len\(fake_stereo_atoms\)\)\)",
-            txt):
+    syn_name = norm(syn[0].targets[0]) if syn else None
+    single = {}
+    for n in ast.walk(fs.node):
+        if isinstance(n, ast.Assign) and len(n.targets) == 1 and isinstance(
+                n.targets[0], ast.Name):
+            single.setdefault(n.targets[0].id, []).append(n.value)
+    verdict = None
+    for n in ast.walk(fs.node):
+        if not (isinstance(n, (ast.GeneratorExp, ast.ListComp)) and len(
+                n.generators) == 1 and not n.generators[0].ifs
+                and isinstance(n.elt, ast.Tuple) and len(n.elt.elts) == 2
+                and isinstance(n.elt.elts[1], ast.Starred)
+                and isinstance(n.generators[0].target, ast.Name)
+                and norm(n.elt.elts[1].value) == n.generators[0].target.id):
+            continue
+        it = n.generators[0].iter
+        if isinstance(it, ast.Name) and len(single.get(it.id, [])) == 1:
+            it = single[it.id][0]
+        m = re.fullmatch(r"(?:itertools\.)?permutations\(range\((\d+), "
+                         r"len\((\w+)\)\)\)", norm(it))
+        if not m or (syn_name and m.group(2) != syn_name):
+            continue
+        first = norm(n.elt.elts[0])
+        if first == "0" and m.group(1) == "1":
+            verdict = True
+        else:
+            verdict = (f"`{norm(n, 80)}` over `{norm(it, 60)}` does not keep "
+                       "position 0 (the atom itself) fixed")
+    if verdict is True:
         res.ok("R-OWN-COLOUR", inst, fs.loc())
+    elif verdict:
+        res.bad("R-OWN-COLOUR", f"{fs.short}: synthesised permutations",
+                fs.loc(), f"{inst}: {verdict}", instance=inst)
     else:
         res.unrecognised("R-OWN-COLOUR", inst, fs.loc(),
                          "construction of the synthesised permutation group")
@@ -602,16 +630,29 @@ def check_stop_invariant(prog: Program, res: Result) -> None:
 
 
 # ---------------------------------------------------------------------------
-def _gen_kw(res, w, gen, inst):
-    kws = [k for n in ast.walk(w.node) if isinstance(n, ast.Call)
-           for k in n.keywords if k.arg == "generator"]
-    if not kws:
-        res.unrecognised("R-ROLE-AXIS", inst, w.loc(), "no generator= keyword")
-    elif norm(kws[0].value) == gen:
+def _gen_kw(res, w, gen, inst, prog=None):
+    """The wrapper hands `gen` on as the `generator` parameter of the function
+    it delegates to (keyword or positional)."""
+    found = []
+    for n in ast.walk(w.node):
+        if not isinstance(n, ast.Call):
+            continue
+        for k in n.keywords:
+            if k.arg == "generator":
+                found.append(k.value)
+        if prog is not None and not any(k.arg == "generator"
+                                        for k in n.keywords):
+            target, binding = prog.bind_call(w, n)
+            if target is not None and "generator" in binding:
+                found.append(binding["generator"])
+    if not found:
+        res.unrecognised("R-ROLE-AXIS", inst, w.loc(),
+                         "no call that passes a `generator` argument")
+    elif norm(found[0]) == gen:
         res.ok("R-ROLE-AXIS", inst, w.loc())
     else:
-        res.bad("R-ROLE-AXIS", f"{w.short}: generator={norm(kws[0].value)}",
-                w.loc(), f"{inst}: it passes generator={norm(kws[0].value)}",
+        res.bad("R-ROLE-AXIS", f"{w.short}: generator={norm(found[0])}",
+                w.loc(), f"{inst}: it passes generator={norm(found[0])}",
                 instance=inst)
 
 
@@ -622,28 +663,36 @@ def check_roles(prog: Program, res: Result) -> None:
              "bond roles (formed / broken / fleeting) reach the colours")
     fi = _fn(prog, "_reaction_generator")
     g = fi.params()[0]
-    asg = [n for n in ast.walk(fi.node) if isinstance(n, ast.Assign)
-           and norm(n.targets[0]) == "color_iters"]
-    inst = f"{fi.short}: color_iters = [reactant, product, ts]"
-    ok = False
-    if len(asg) == 1 and isinstance(asg[0].value, ast.List) and len(
-            asg[0].value.elts) == 3:
-        parts = [norm(e.args[0]) if isinstance(e, ast.Call) and e.args else ""
-                 for e in asg[0].value.elts]
-        ok = parts == [f"{g}.reactant()", f"{g}.product()", f"{g}._ts()"]
-    if ok:
-        res.ok("R-ROLE-AXIS", inst, fi.loc())
+    gen_param = fi.params()[1] if len(fi.params()) > 1 else "generator"
+    want = [f"{g}.reactant()", f"{g}.product()", f"{g}._ts()"]
+    cands = []
+    for n in ast.walk(fi.node):
+        if isinstance(n, ast.Assign) and len(n.targets) == 1 and isinstance(
+                n.targets[0], ast.Name) and isinstance(
+                n.value, (ast.List, ast.Tuple)) and n.value.elts and all(
+                isinstance(e, ast.Call) and call_name(e) == gen_param
+                for e in n.value.elts):
+            cands.append(n)
+    inst = f"{fi.short}: colour streams = [reactant, product, ts]"
+    L = None
+    if len(cands) != 1:
+        res.unrecognised("R-ROLE-AXIS", inst, fi.loc(),
+                         f"{len(cands)} lists of {gen_param}(...) streams")
     else:
-        res.bad("R-ROLE-AXIS", f"{fi.short}: color_iters", fi.loc(),
-                f"{inst}: not the three role graphs of the reaction",
-                instance=inst)
-    txt = utext(fi.node)
+        L = cands[0].targets[0].id
+        parts = [norm(e.args[0]) if e.args else "" for e in cands[0].value.elts]
+        if parts == want:
+            res.ok("R-ROLE-AXIS", inst, fi.loc(cands[0]))
+        else:
+            res.bad("R-ROLE-AXIS", f"{fi.short}: color_iters", fi.loc(cands[0]),
+                    f"{inst}: the streams refine {parts}, not the three role "
+                    f"graphs {want} of the reaction", instance=inst)
     inst = f"{fi.short}: colour k copied to stacked[..., k]"
     cps = [n for n in ast.walk(fi.node) if isinstance(n, ast.Call)
            and call_name(n) == "np.copyto" and len(n.args) == 2
            and isinstance(n.args[0], ast.Subscript)]
     loops_ = [l for l in ast.walk(fi.node) if isinstance(l, ast.For)
-              and norm(l.iter) == "enumerate(color_iters)"
+              and L is not None and norm(l.iter) == f"enumerate({L})"
               and isinstance(l.target, ast.Tuple)]
     if cps and loops_:
         axis = norm(loops_[0].target.elts[0])
@@ -662,13 +711,13 @@ def check_roles(prog: Program, res: Result) -> None:
                           "stereo_morgan_generator")):
         w = _fn(prog, wrapper)
         inst = f"{wrapper} uses {gen}"
-        _gen_kw(res, w, gen, inst)
+        _gen_kw(res, w, gen, inst, prog)
     for k, gen in (("mg", "morgan_generator"), ("smg", "stereo_morgan_generator"),
                    ("crg", "reaction_morgan_generator"),
                    ("scrg", "stereo_reaction_morgan_generator")):
         w = _fn(prog, f"color_refine_{k}")
         inst = f"color_refine_{k} refines with {gen}"
-        _gen_kw(res, w, gen, inst)
+        _gen_kw(res, w, gen, inst, prog)
 
 
 # ---------------------------------------------------------------------------
